@@ -371,7 +371,8 @@ func (m *Variant) Encode() ([]byte, error) {
 
 // encode recursively writes the values to the buffer.
 func (m *Variant) encode(buf *Buffer, val reflect.Value) {
-	if val.Kind() != reflect.Slice || m.Type() == TypeIDByteString {
+	// a ByteString is a []byte value, an array of ByteStrings is a slice of them
+	if val.Kind() != reflect.Slice || (m.Type() == TypeIDByteString && val.Type().Elem().Kind() == reflect.Uint8) {
 		m.encodeValue(buf, val.Interface())
 		return
 	}
@@ -478,7 +479,8 @@ func sliceDim(val reflect.Value) (typ reflect.Type, dim []int32, count int32, er
 	}
 
 	// check that inner slices all have the same length
-	if val.Index(0).Kind() == reflect.Slice {
+	// (ByteStrings are values, not a dimension of the array)
+	if val.Index(0).Kind() == reflect.Slice && val.Index(0).Type() != reflect.TypeOf([]byte{}) {
 		for i := 0; i < val.Len(); i++ {
 			if val.Index(i).Len() != val.Index(0).Len() {
 				return nil, nil, 0, errUnbalancedSlice
@@ -528,7 +530,7 @@ func (m *Variant) set(v interface{}) error {
 // todo(fs): this should probably be StringValue or we need to handle all types
 // todo(fs): and recursion
 func (m *Variant) String() string {
-	if m.ArrayLength() > 0 {
+	if m.Has(VariantArrayValues) {
 		return ""
 	}
 
@@ -550,7 +552,7 @@ func (m *Variant) String() string {
 
 // Bool returns the boolean value if the type is Boolean.
 func (m *Variant) Bool() bool {
-	if m.ArrayLength() > 0 {
+	if m.Has(VariantArrayValues) {
 		return false
 	}
 
@@ -564,7 +566,7 @@ func (m *Variant) Bool() bool {
 
 // Float returns the float value if the type is one of the float types.
 func (m *Variant) Float() float64 {
-	if m.ArrayLength() > 0 {
+	if m.Has(VariantArrayValues) {
 		return 0
 	}
 
@@ -580,7 +582,7 @@ func (m *Variant) Float() float64 {
 
 // Int returns the int value if the type is one of the int types.
 func (m *Variant) Int() int64 {
-	if m.ArrayLength() > 0 {
+	if m.Has(VariantArrayValues) {
 		return 0
 	}
 
@@ -600,7 +602,7 @@ func (m *Variant) Int() int64 {
 
 // Uint returns the uint value if the type is one of the uint types.
 func (m *Variant) Uint() uint64 {
-	if m.ArrayLength() > 0 {
+	if m.Has(VariantArrayValues) {
 		return 0
 	}
 
@@ -635,7 +637,7 @@ func (m *Variant) ByteArray() ByteArray {
 }
 
 func (m *Variant) ByteString() []byte {
-	if m.ArrayLength() > 0 {
+	if m.Has(VariantArrayValues) {
 		return nil
 	}
 
@@ -648,7 +650,7 @@ func (m *Variant) ByteString() []byte {
 }
 
 func (m *Variant) DataValue() *DataValue {
-	if m.ArrayLength() > 0 {
+	if m.Has(VariantArrayValues) {
 		return nil
 	}
 
@@ -661,7 +663,7 @@ func (m *Variant) DataValue() *DataValue {
 }
 
 func (m *Variant) DiagnosticInfo() *DiagnosticInfo {
-	if m.ArrayLength() > 0 {
+	if m.Has(VariantArrayValues) {
 		return nil
 	}
 
@@ -674,7 +676,7 @@ func (m *Variant) DiagnosticInfo() *DiagnosticInfo {
 }
 
 func (m *Variant) ExpandedNodeID() *ExpandedNodeID {
-	if m.ArrayLength() > 0 {
+	if m.Has(VariantArrayValues) {
 		return nil
 	}
 
@@ -687,7 +689,7 @@ func (m *Variant) ExpandedNodeID() *ExpandedNodeID {
 }
 
 func (m *Variant) ExtensionObject() *ExtensionObject {
-	if m.ArrayLength() > 0 {
+	if m.Has(VariantArrayValues) {
 		return nil
 	}
 
@@ -700,7 +702,7 @@ func (m *Variant) ExtensionObject() *ExtensionObject {
 }
 
 func (m *Variant) GUID() *GUID {
-	if m.ArrayLength() > 0 {
+	if m.Has(VariantArrayValues) {
 		return nil
 	}
 
@@ -713,7 +715,7 @@ func (m *Variant) GUID() *GUID {
 }
 
 func (m *Variant) LocalizedText() *LocalizedText {
-	if m.ArrayLength() > 0 {
+	if m.Has(VariantArrayValues) {
 		return nil
 	}
 
@@ -726,7 +728,7 @@ func (m *Variant) LocalizedText() *LocalizedText {
 }
 
 func (m *Variant) NodeID() *NodeID {
-	if m.ArrayLength() > 0 {
+	if m.Has(VariantArrayValues) {
 		return nil
 	}
 
@@ -741,7 +743,7 @@ func (m *Variant) NodeID() *NodeID {
 }
 
 func (m *Variant) QualifiedName() *QualifiedName {
-	if m.ArrayLength() > 0 {
+	if m.Has(VariantArrayValues) {
 		return nil
 	}
 
@@ -754,7 +756,7 @@ func (m *Variant) QualifiedName() *QualifiedName {
 }
 
 func (m *Variant) StatusCode() StatusCode {
-	if m.ArrayLength() > 0 {
+	if m.Has(VariantArrayValues) {
 		return StatusBadTypeMismatch
 	}
 
@@ -768,7 +770,7 @@ func (m *Variant) StatusCode() StatusCode {
 
 // Time returns the time value if the type is DateTime.
 func (m *Variant) Time() time.Time {
-	if m.ArrayLength() > 0 {
+	if m.Has(VariantArrayValues) {
 		return time.Time{}
 	}
 
@@ -781,7 +783,7 @@ func (m *Variant) Time() time.Time {
 }
 
 func (m *Variant) Variant() *Variant {
-	if m.ArrayLength() > 0 {
+	if m.Has(VariantArrayValues) {
 		return nil
 	}
 	switch m.Type() {
@@ -793,7 +795,7 @@ func (m *Variant) Variant() *Variant {
 }
 
 func (m *Variant) XMLElement() XMLElement {
-	if m.ArrayLength() > 0 {
+	if m.Has(VariantArrayValues) {
 		return ""
 	}
 
